@@ -133,6 +133,8 @@ class Executor:
     g=s.lookup_global(n)
     if g is None and not s.spec and n in (getattr(getattr(s,'contract',None),'opaque_methods',None) or {}): g=Cls(n)
     if g is None and not s.spec and n in (getattr(getattr(s,'contract',None),'class_predicates',None) or {}): g=Cls(n)
+    if g is None and not s.spec and ('issubclass:'+n) in (getattr(getattr(s,'contract',None),'class_predicates',None) or {}): g=Cls(n)
+    if g is None and not s.spec and n in (getattr(getattr(s,'contract',None),'pure_functions',None) or ()): g=Fn(n)
     if g is None:
       if s.spec: raise ToolError(f"unbound name {n} in contract expression")
       raise Unsupported(f"global name {n} is not modelled (imported module / unknown object)")
@@ -558,6 +560,10 @@ class Executor:
     return v
 
   def getattr(s,o,attr,st):
+    if isinstance(o,Opq) and z3.is_expr(o.t) and str(o.t.sort())=='Obj' and getattr(getattr(s,'contract',None),'opaque_attrs',False):
+      # attribute of an opaque framework object: a pure function of the object (assumption: the pass does not mutate it), e.g. w._dsl.Type
+      from . import symcoll
+      uf=z3.Function('attr_'+attr,symcoll.Obj,symcoll.Obj); yield st,Opq(uf(o.t),'obj'); return
     if type(o).__name__=='Mod':
       if (o.name,attr)==('random','shuffle'): yield st,Fn('random.shuffle'); return
       if (o.name,attr)==('os','environ'): yield st,Opq(z3.IntVal(0),'os.environ'); return
@@ -725,7 +731,7 @@ class Executor:
       # constructor of a class under contract
       yield from s.call_contract(f'{f.name}.__init__',None,args,kw,st,ctor=f.name); return
     if not isinstance(f,Fn): yield st,Exc('TypeError',f'{f!r} not callable'); return
-    if f.name in SPEC_FUNS and s.spec:
+    if f.name in SPEC_FUNS and (s.spec or f.name in (getattr(getattr(s,'contract',None),'pure_functions',None) or ())):
       yield st,SPEC_FUNS[f.name](s,args,st); return
     if f.name in BUILTIN_FNS:
       yield from BUILTIN_FNS[f.name](s,f,args,kw,st); return
@@ -1594,6 +1600,9 @@ def _bi_super(s,f,args,kw,st):
 
 def _bi_issubclass(s,f,args,kw,st):
   a,b=args
+  cp=getattr(getattr(s,'contract',None),'class_predicates',None)
+  if cp and isinstance(a,Opq) and isinstance(b,Cls) and ('issubclass:'+b.name) in cp:
+    yield st,SPEC_FUNS[cp['issubclass:'+b.name]](s,[a],st); return
   if isinstance(a,ClsN) and isinstance(b,Cls): yield st,B(s.reg.is_subclass(a.base,b.name)); return
   if isinstance(a,Cls) and isinstance(b,Cls): yield st,B(s.reg.is_subclass(a.name,b.name)); return
   yield st,Exc('TypeError','issubclass() arg 1 must be a class')
